@@ -132,6 +132,8 @@ def subj_selector(b, kind, pattern):
             p["full_fraction"] = rng.choice([1e-9, 0.1, 0.3, 0.5, 0.9, 1.0])
     if rng.random() < 0.15:
         p["progress_bar"] = True
+    if rng.random() < 0.1:
+        p["full"] = True
     xa, xb = b.ref(XA, "data"), b.ref(XB, "data")
     ya = b.ref(b.y_of(XA), "target")
     yb = b.ref(b.y_of(XB), "target")
@@ -198,9 +200,15 @@ def subj_pcovr(b, kind, pattern):
         p["regressor"] = {"$est": ["Ridge", {"alpha": 10 ** rng.uniform(-8, -2), "fit_intercept": False, "tol": 1e-12}]}
     elif r < 0.45:
         p["regressor"] = {"$est": ["LinearRegression", {"fit_intercept": False}]}
-    sq = pdim == 1 and rng.random() < 0.5
+    elif r < 0.6:
+        p["regressor"] = "precomputed"
+    sq = pdim == 1 and rng.random() < 0.5 and p.get("regressor") != "precomputed"
     fitA = {"X": b.ref(XA, "data"), "Y": b.ref(b.y_of(XA, pdim, squeeze=sq), "target")}
     fitB = {"X": b.ref(XB, "data"), "Y": b.ref(b.y_of(XB, pdim, squeeze=sq), "target")}
+    if p.get("regressor") == "precomputed" and rng.random() < 0.6:
+        # caller-supplied regression weights (n_features x n_properties)
+        fitA["W"] = b.ref({"kind": "gauss", "shape": [XA["shape"][1], pdim], "seed": _seed(rng)}, "weights_matrix")
+        fitB["W"] = b.ref({"kind": "gauss", "shape": [XB["shape"][1], pdim], "seed": _seed(rng)}, "weights_matrix")
     T = b.ref({"kind": "gauss", "shape": [5, p["n_components"]], "seed": _seed(rng)}, "latent")
     reads = [("transform", {"X": "$LASTX"}), ("predict", {"X": "$LASTX"}), ("score", {"X": "$LASTX", "Y": "$LASTY"}), ("inverse_transform", {"T": T})]
     rep = not (solver in ("arpack", "randomized") and p.get("random_state") is None)
@@ -268,7 +276,7 @@ def subj_scaler(b, kind, pattern):
     elif r < 0.6:
         fitB["sample_weight"] = b.ref(b.w(XB["shape"][0]), "weights")
     T = b.ref({"kind": "gauss", "shape": [4, XB["shape"][1]], "seed": _seed(rng)}, "data")
-    reads = [("transform", {"X": "$LASTX"}), ("inverse_transform", {"X_tr": T})]
+    reads = [("transform", {"X": "$LASTX"}), ("inverse_transform", {"X_tr": T}), ("transform", {"X": "$LASTX", "copy": True})]
     return dict(params=p, fitA=fitA, fitB=fitB, reads=reads, envs=["rng"], repeatable=True, fit_transform=True, ft_weight=True)
 
 
@@ -379,7 +387,7 @@ def subj_kde(b, kind, pattern):
     gB = {"kind": "rows", "base": _strip(Dsc), "idx": sorted(rng.sample(range(n), rng.randint(4, 7)))}
     fitA, fitB = {"X": b.ref(gA, "grid")}, {"X": b.ref(gB, "grid")}
     Q = b.ref({"kind": "gauss", "shape": [4, d], "seed": _seed(rng)}, "query")
-    reads = [("score_samples", {"X": Q}), ("score", {"X": Q})]
+    reads = [("score_samples", {"X": Q}), ("score", {"X": Q}), ("sample", {"n_samples": 3, "random_state": rng.randrange(100)})]
     envs = ["rng"] + (["stderr"] if p.get("verbose") else [])
     return dict(params=p, fitA=fitA, fitB=fitB, reads=reads, envs=envs, repeatable=True, fit_transform=False)
 
